@@ -21,7 +21,10 @@
             R3 AS_PATH / AS4_PATH merged per RFC 6793 4.2.3, packed with 4-byte AS numbers
             R4 wrong Optional/Transitive bits on a known attribute whose class carries no decision
                (COMMUNITY, EXTENDED_COMMUNITY, ...) -> treat-as-withdraw instead of a silent drop
-            R5 AS path segment of length zero refused; NEXT_HOP attribute length must be 4
+            R5 NEXT_HOP attribute length must be 4
+               (an AS path segment of length zero is still accepted by both generations: the pinned test
+                tests/fuzz/test_update_integration.py::test_update_empty_as_path_allowed writes an empty AS_PATH
+                as `02 00`; RFC 7606 7.2 calls it malformed - known finding, C08_rfc7606_refuted)
             R6 read_message no longer drops a whole UPDATE that carries INTERNAL_DISCARD
    The value decoders of PMSI, TUNNEL_ENCAP, AIGP, BGP-LS and PREFIX_SID are abstracted: `opq code value`
    is their outcome (supplied by the harness from the real decoder, universally quantified in theorems). *)
@@ -92,7 +95,8 @@ Fixpoint read_asns (n : nat) (w : nat) (d : list Z) : option (list Z) :=
 Definition seg_type_ok (t : Z) : bool :=
   (t =? SEG_SET) || (t =? SEG_SEQUENCE) || (t =? SEG_CONFED_SEQUENCE) || (t =? SEG_CONFED_SET).
 
-(* ASPath._unpack_segments_static; None = Notify(3,11) *)
+(* ASPath._unpack_segments_static; None = Notify(3,11).  `fixed` is not consulted: a segment of length
+   zero is accepted by both generations *)
 Fixpoint parse_segs (fuel : nat) (fixed asn4 : bool) (d : list Z) : option (list (Z * list Z)) :=
   match d with
   | [] => Some []
@@ -103,7 +107,6 @@ Fixpoint parse_segs (fuel : nat) (fixed asn4 : bool) (d : list Z) : option (list
       match d with
       | st :: sl :: rest =>
         if negb (seg_type_ok st) then None else
-        if fixed && (sl =? 0) then None else
         let w := if asn4 then 4%nat else 2%nat in
         let n := (Z.to_nat sl * w)%nat in
         match read_asns (Z.to_nat sl) w (firstn n rest) with
